@@ -56,10 +56,12 @@ def run_selftest(pid, rep):
                     pass
     if not names:
         return
-    r = subprocess.run([sys.executable, os.path.join(VERIF, "tools", "selftest.py"), "--property", pid] + names,
-                       cwd=VERIF, stdout=subprocess.PIPE, stderr=subprocess.STDOUT, text=True)
+    nshard = max(1, min(6, len(names) // 4))
+    procs = [subprocess.Popen([sys.executable, os.path.join(VERIF, "tools", "selftest.py"), "--property", pid] + names[i::nshard],
+                              cwd=VERIF, stdout=subprocess.PIPE, stderr=subprocess.STDOUT, text=True) for i in range(nshard)]
+    outs = [p_.communicate()[0] for p_ in procs]
     res = {}
-    for line in r.stdout.splitlines():
+    for line in "\n".join(outs).splitlines():
         m = re.match(r"^(\S+)\s+(PASS|FAIL)\s", line)
         if m:
             res[m.group(1)] = m.group(2)
